@@ -107,6 +107,11 @@ def sym_pow(ex, x, y):
                 return to_real(r)
         except Exception:
             pass
+    ys = z3.simplify(y)
+    if z3.is_rational_value(ys) and ys.denominator_as_long() == 1 and abs(ys.numerator_as_long()) <= 12:
+        # integer exponent: exact product form (x^-n = 1/x^n; 0^-n leaves the defined domain, A2)
+        from .execute import Executor
+        return Executor._int_power(x, ys.numerator_as_long())
     f = ex.ctx.uf("pow", z3.RealSort(), z3.RealSort(), z3.RealSort())
     t = f(x, y)
     key = ("pow", t.get_id())
